@@ -19,6 +19,7 @@ import json
 import os
 import sys
 from common import Infra, ndjson
+from fn_lib import judge_cases, load_batches
 
 
 def run(ctx):
@@ -44,15 +45,13 @@ def run(ctx):
     cases = os.path.join(ctx.work, "cases.ndjson")
     hg = ctx.harness([b, "gen", cases], timeout=600)
     ncases = hg["summary"]["cases"]
-    rc = ctx.tlc("fn/KeyAlgebraCases", "cfg/KeyAlgebraCases.cfg", timeout=3000, tag="cases", files={"cases.ndjson": open(cases).read()})
-    if not rc.ok:
-        raise Infra("TLC failed while normalising the recorded terms: violated=%s error=%s\n%s" % (rc.violated, rc.error, rc.out[-2000:]))
-    hc = ctx.harness([b, "cmp", cases, rc.path], timeout=1500)
+    expect, cruns = judge_cases(ctx, "fn/KeyAlgebraCases", "cfg/KeyAlgebraCases.cfg", cases, chunk=40000)
+    hc = ctx.harness([b, "cmp", cases, expect], timeout=1500)
     if hc["summary"].get("cases") != ncases:
         raise Infra("compared %s of %d cases" % (hc["summary"].get("cases"), ncases))
     samples += hc["samples"][:2]
     # ---- negative control: a flipped expectation must be reported
-    docs = list(rc.exports())
+    docs = load_batches(expect)
     docs[0][0]["r"] = not docs[0][0]["r"]
     ctl = os.path.join(ctx.work, "expect_corrupted.ndjson")
     with open(ctl, "w") as fh:
@@ -63,7 +62,7 @@ def run(ctx):
     t = ht["summary"]
     ev = t["equalities"] + t["verifications"] + t["decryptions"] + hs["summary"]["steps"] + ncases
     ctx.finish("model_checking", dict(
-        states=rt.distinct + rs.distinct + rc.distinct, transitions=rt.generated + rs.generated + rc.generated,
+        states=rt.distinct + rs.distinct + sum(r.distinct for r in cruns), transitions=rt.generated + rs.generated + sum(r.generated for r in cruns),
         traces_validated_against_impl=hs["summary"]["behaviours"] + ncases + rt.nexports,
         evaluations=ev,
         distinct_nontrivial=t["expected_true"] + hc["summary"]["expected_true"],
